@@ -132,15 +132,16 @@ whole nested decode, and an allocation counter bounded linearly.  Nesting is bou
 each level's loops by its own remaining bytes, which gives `100 * bs.length` informally; the model
 carries no step or allocation counter.  Allocation is measured by T1 only (harness). -/
 
-/-! ### "yields a message": strings (known finding PB1)
+/-! ### strings: what the two string modules do (facts about the modules, NOT part of C10)
 
-Full statement (FALSE for the tree as it is): every string a successful decode returns is UTF-8,
-  `c ∈ {string, faststr} → c.merge wt bs = .ok (.bs v, r) → validUtf8 v = true`.
-`string::merge` checks; `faststr::merge` — the module pilota-build selects for every proto
-`string` — builds the `FastStr` with `from_bytes_unchecked`. -/
+C10 asks for "a message or a decode error", no panic, bounded work; it does not ask that string fields be
+validated, and pilota does not validate on any of its decode paths by design (`from_bytes_unchecked` /
+`from_utf8_unchecked` in every Thrift reader and in `faststr::merge`).  An earlier version of this check reported
+that as a C10 finding (PB1); that demanded more than the property states and was withdrawn (see DESIGN.md).
+The two theorems below record the behaviour of the modules as modelled and tied by T1. -/
 
 /-- proved part: the `string` module validates. -/
-theorem utf8_checked_partial (wt : WireType) (bs : Bytes) (v : SVal) (r : Bytes)
+theorem string_module_validates_utf8 (wt : WireType) (bs : Bytes) (v : SVal) (r : Bytes)
     (h : Codec.string.merge wt bs = .ok (v, r)) : ∃ b, v = .bs b ∧ validUtf8 b = true := by
   unfold Codec.merge at h
   cases hc : checkWireType Codec.string.wt wt with
@@ -164,8 +165,8 @@ theorem utf8_checked_partial (wt : WireType) (bs : Bytes) (v : SVal) (r : Bytes)
   | panic e => simp [hc] at h
   | fuel => simp [hc] at h
 
-/-- the witness replayed by the harness (`pbscm faststr len 01ff`): a one-byte string `ff`. -/
-theorem faststr_utf8_counterexample :
+/-- `faststr::merge` does not validate (same bytes in, same bytes out): a one-byte string `ff`. -/
+theorem faststr_module_does_not_validate :
     Codec.faststr.merge .len [0x01, 0xff] = .ok (.bs [0xff], []) ∧ validUtf8 [0xff] = false := by
   constructor
   · rfl
